@@ -81,3 +81,28 @@ package discovery
 //@   props C13
 //@   requires byte(x) == byte(y) && byte(x >> 8) == byte(y >> 8)
 //@   assert [injective] x == y
+
+// ---- membership synchronisation (C07): what is handed to the continuation, and when -------------------------------------
+
+//@ func (*Member).Synchronize
+//@   props C07 C11
+//@   requires ctx != nil && f != nil && m.Logger != nil && m.Broadcast != nil && m.Send != nil && len(topicToSynchronizeOn) >= 4 && probeInterval > 0
+//@   ghost-var called bool
+//@   // the continuation runs at most once, with a sorted list of exactly the expected size, after expected-1 matching
+//@   // acknowledgements; it runs if and only if Synchronize succeeds
+//@   on-call f(ms):
+//@     assert [size]         len(ms) == expectedMemberCount
+//@     assert [sorted]       forall a int, b int :: 0 <= a && a < b && b < len(ms) ==> ms[a] <= ms[b]
+//@     assert [acknowledged] acknowledgementsLeft <= 0
+//@     assert [once]         !called
+//@     ghost called = true
+//@   at return:
+//@     assert [continuation-iff-success] (result == nil) == called
+//@     assert [timeout-is-error]         done(ctx) ==> result != nil
+//@
+//@ // one confirmation per peer
+//@ func (*Member).handleResponse
+//@   props C07 C10
+//@   requires typeIs(tpv, "*topicPeerView") && dyn(tpv, "*topicPeerView") != nil
+//@   on-send topicPeerView.responses(v):
+//@     assert [first-from-peer] !existed && same(v, peers)
